@@ -28,6 +28,11 @@ def many_operands(case, info):
     return len(re.findall(r"[A-Za-z][A-Za-z0-9]*\(", case["assignment"].split("=", 1)[1])) > 8
 
 
+def oob_on_dense_level(case, info):
+    """F-F: the out-of-range coordinate lies on an axis stored in a dense level."""
+    return bool(info.get("dense_level"))
+
+
 def always(case, info):
     return True
 
@@ -36,6 +41,7 @@ SIGNATURES = {
     "fused_product": fused_product,
     "literal_only_int_arithmetic": literal_only_int_arithmetic,
     "always": always,
+    "oob_on_dense_level": oob_on_dense_level,
     "reserved_name": reserved_name,
     "many_operands": many_operands,
 }
